@@ -26,7 +26,6 @@ def run(res, tier, replay=None):
     c01i.run_extents(prog, res, floor=3, prims=prims, advisory_filter=c01.scope_filter())
     c01i.witnesses(prog, res)
     if tier == "thorough":
-        common.config_matrix(res, lambda p, r: (c01.run_b(p, r, floor=0), c01.run_a(p, r), c01.run_d(p, r)), violation=False)
         flt = c01.scope_filter()
         common.thorough_mutations(res, "C01", {
             "C01.b": lambda p, r: c01.run_b(p, r, advisory_filter=flt, floor=0),
@@ -40,6 +39,10 @@ def run(res, tier, replay=None):
             "C01.j": lambda p, r: c01i.run_views(p, r, floor=0, prims=c01.primitives(p), advisory_filter=flt),
             "C01.k": lambda p, r: c01i.run_extents(p, r, floor=0, prims=c01.primitives(p), advisory_filter=flt),
         })
+    if tier == "thorough":
+        # after the mutation witnesses: findings of other configurations must not count as their baseline
+        common.config_matrix(res, lambda p, r: (c01.run_b(p, r, floor=0), c01.run_a(p, r), c01.run_d(p, r),
+                                                  c01i.run(p, r, floor=0, prims=c01.primitives(p))), violation=False)
     res.assumptions = common.ASSUMPTIONS
     res.explanation = (
         "C01, structural clauses only. (b) kind-set dataflow: every typed access on a parameter of a C primitive "
